@@ -157,6 +157,10 @@ class CutplaceApp(object):
 
         _log.info('validate "%s"', data_path)
 
+        # Ensure that a file that cannot be read results in an OSError no matter the data format; for
+        # example, the ODS reader reports a missing file as broken data.
+        with open(data_path, "rb"):
+            pass
         try:
             with validio.Reader(self.cid, data_path, validate_until=self.validate_until) as reader:
                 reader.validate_rows()
